@@ -11,7 +11,9 @@ FORMATS = ["json", "xml", "rdf", "provn"]
 DEST = ["returned string", "text stream", "binary stream", "file path"]
 SRC = ["content str", "content bytes", "text stream", "binary stream", "file path"]
 VARIANTS = ["unicode string", "int+bool", "datetime", "uri+qname", "lang literal", "relation", "large multi-byte text +0",
-            "large multi-byte text +1", "large multi-byte text +2"]
+            "large multi-byte text +1", "large multi-byte text +2", "unicode line separators"]
+# file names for the "file path" destination / source kind: plain, URL syntax, non-ASCII with a space
+NAMES = ["out", "run#2;x?y=1", "é 中"]
 
 
 def _doc(variant):
@@ -30,6 +32,9 @@ def _doc(variant):
         d.entity("ex:e1", {"ex:u": Identifier("http://x/é"), "prov:type": d.valid_qualified_name("ex:T")})
     elif v == "lang literal":
         d.entity("ex:e1", {"prov:label": Literal("été", None, "fr")})
+    elif v == "unicode line separators":
+        # characters str.splitlines() / universal-newline text streams treat as line ends
+        d.entity("ex:e1", {"ex:k": "a\u2028b\u2029c\x85d", "prov:label": "l1\nl2"})
     elif v == "relation":
         d.entity("ex:e1")
         d.activity("ex:a1")
@@ -54,7 +59,8 @@ def io_kinds(ctx):
     si = ctx.choose("source", len(SRC))
     explicit = ctx.bool("explicit_format")
     variant = ctx.choose("variant", len(VARIANTS))
-    ctx.observe("cfg", [fi, di, si, explicit, variant])
+    ni = ctx.choose("file_name", len(NAMES)) if (di == 3 or si == 4) else 0
+    ctx.observe("cfg", [fi, di, si, explicit, variant, ni])
     if ctx.sym:
         ctx.checks += 1
         return  # configuration space only; every configuration is executed concretely on the unmodified build
@@ -76,7 +82,7 @@ def io_kinds(ctx):
             d.serialize(st, format=fmt)
             data = st.getvalue()
         else:
-            p = os.path.join(scratch, "out.%s" % fmt)
+            p = os.path.join(scratch, "%s.%s" % (NAMES[ni], fmt))
             if explicit:
                 # the destination already exists and holds a LONGER, unrelated file
                 with open(p, "wb") as f:
@@ -84,6 +90,7 @@ def io_kinds(ctx):
             d.serialize(p, format=fmt)
             with open(p, "rb") as f:
                 data = f.read()
+            ctx.check(sorted(os.listdir(scratch)) == [os.path.basename(p)], "serialize(path) left other files: %r" % sorted(os.listdir(scratch)))
         if fmt == "xml":
             same = ProvDocument.deserialize(content=data.decode("utf-8"), format="xml") == ProvDocument.deserialize(content=ref, format="xml")
             ctx.check(same, "%s: XML written to a %s parses differently from the returned string" % (fmt, DEST[di]))
@@ -95,9 +102,13 @@ def io_kinds(ctx):
             return  # write only
         # ---- source kinds --------------------------------------------------------------------------------------------
         want = S.doc_desc(d.unified() if fmt == "rdf" else d)
-        path = os.path.join(scratch, "in.%s" % fmt)
+        path = os.path.join(scratch, "in-%s.%s" % (NAMES[ni], fmt))
         with open(path, "wb") as f:
             f.write(data)
+        if ni == 1:
+            # a sibling file named like the part of the name before the URL syntax: must not be read instead
+            with open(os.path.join(scratch, "in-run"), "wb") as f:
+                f.write(b"{}")
 
         def source(kind):
             if kind == 0:
@@ -126,10 +137,10 @@ def io_kinds(ctx):
 
 OBLIGATIONS = [
     Obligation(name="io_kinds", fn=io_kinds, shards=[{}],
-               desc="configuration product format {json, xml, rdf, provn} x 4 destination kinds x 5 source kinds x prov.read with/without format x 6 document variants with non-ASCII content: "
+               desc="configuration product format {json, xml, rdf, provn} x 4 destination kinds x 5 source kinds x prov.read with/without format x 10 document variants with non-ASCII content: "
                     "the solver only enumerates the configurations (every path is one concrete configuration executed on the unmodified build): same text for every destination kind "
                     "(UTF-8 for binary targets; XML: parses identically), same document from every source kind, prov.read returns that document",
-               bounds="4 x 4 x 5 x 2 x 9 = 1440 configurations, exhaustively (3 variants are > 16 KiB documents of multi-byte text; path destinations also over a pre-existing longer file)", assumptions=["documents in the intersection of the JSON/XML/RDF-expressible spaces", "RDF compared against unified()"],
+               bounds="4 x 4 x 5 x 2 x 10 configurations, x 3 file names (plain, URL syntax '#;?=', non-ASCII with a space) wherever a path is the destination or the source, exhaustively (3 variants are > 16 KiB documents of multi-byte text, 1 holds U+2028/U+2029/U+0085; path destinations also over a pre-existing longer file)", assumptions=["documents in the intersection of the JSON/XML/RDF-expressible spaces", "RDF compared against unified()"],
                functions=["prov.model.ProvDocument.serialize/deserialize", "prov.read", "prov.serializers.*.serialize/deserialize (stream handling)"],
                shims=["no symbolic content: this is the weakest use of the technique (stated in DESIGN.md)"], best_verdict="PATH_COMPLETE", traced=False,
                budget_s=(200, 600), per_path_s=(30, 60)),
